@@ -43,6 +43,8 @@ def run(tier):
             for b in models.simulate_programs(ck, n, num, d + 1, seed=ck.seed * 1000 + n * 10 + d, names1=ONE, names2=TWO):
                 progs.append((n, b["hist"], f"simulated behaviour n={n} len={len(b['hist'])}"))
     inputs = [{"n": n, "codes": [], "program": p, "graph": None, "src": src} for (n, p, src) in progs]
+    # the textbook graph-state program of every table line on that line's connectivity: every class x connectivity is compressed at least once
+    inputs += [dict(i, codes=[]) for i in sweep.inputs_table_graphs(L)]
     if quick:   # simulated programs on every connectivity; n=2,3 graph programs on every connectivity
         jobs = sweep.expand_jobs(inputs, ["compress"], rng)
     else:
